@@ -384,7 +384,35 @@ pub fn run_case(case: &C18Case) -> CaseReport {
                         nontrivial += 1;
                     }
                 }
-                Ok(None) => inconclusive += 1,
+                Ok(None) => {
+                    inconclusive += 1;
+                    // points that cannot even be set up usually mean the server no longer accepts:
+                    // ask it directly instead of burning the set-up timeout on every further point
+                    if inconclusive == 3 {
+                        let wait = Duration::from_secs(10);
+                        let served = match Client::connect(server.port) {
+                            Ok(mut f) => {
+                                let _ = f.send_chunk(&wire::simple(wire::NOOP, 0xF4E6).bytes(), wait);
+                                let ok = f.read_until(wait, |cl| cl.has_opaque(0xF4E6));
+                                f.reset_close();
+                                ok
+                            }
+                            Err(_) => false,
+                        };
+                        if !served {
+                            rep.fail = Some(FailInfo {
+                                clause: "server_down".into(),
+                                msg: format!("after the faults injected so far (last: offset {}, fault {}) a fresh connection is not served within 10 s", cut, KINDS[kind]),
+                                signature: format!("server_down:{}", KINDS[kind]),
+                                detail: json!({"cut": cut, "kind": KINDS[kind], "stream_hex": wire::compact_hex(&stream), "frame_ends": ends}),
+                            });
+                            break 'outer;
+                        }
+                    }
+                    if inconclusive >= 8 {
+                        break 'outer;
+                    }
+                }
                 Err((clause, msg)) => {
                     rep.fail = Some(FailInfo {
                         clause: clause.clone(),
